@@ -2751,6 +2751,14 @@ func (s *Server) serveConnCounted(c net.Conn, countConcurrency bool) error {
 			if bw == nil {
 				bw = acquireWriter(ctx)
 			}
+			if ctx.Response.IsBodyStream() && bw.Buffered() > 0 {
+				// Writing a body stream can fail half-way, and the connection is then
+				// closed without flushing. Responses to earlier pipelined requests
+				// that are still buffered must not be lost with it.
+				if err = bw.Flush(); err != nil {
+					break
+				}
+			}
 			if err = writeResponse(ctx, bw); err != nil {
 				break
 			}
